@@ -1,6 +1,7 @@
 package harness
 
 import (
+	"bufio"
 	"fmt"
 	"github.com/gorilla/websocket"
 	"net"
@@ -29,6 +30,18 @@ import (
 // alone, the peer notices, the address can be bound again, a connection that
 // is still in its handshake is dropped, and once every socket is closed no
 // library goroutine remains.  Validated against spec/Lifecycle.tla.
+
+// gatedWriter holds the hijack of an HTTP upgrade back until released
+type gatedWriter struct {
+	http.ResponseWriter
+	entered, release chan struct{}
+}
+
+func (g *gatedWriter) Hijack() (net.Conn, *bufio.ReadWriter, error) {
+	close(g.entered)
+	<-g.release
+	return g.ResponseWriter.(http.Hijacker).Hijack()
+}
 
 func mangosGoroutines() []string {
 	buf := make([]byte, 4<<20)
@@ -546,6 +559,8 @@ func TestCloseReal(t *testing.T) {
 			tries := count(150, 1500)
 			established, survivors, leaked := 0, 0, 0
 			leakDetail := ""
+			var wsProbes []func(time.Duration) bool
+			var wsConns []interface{ Close() error }
 			for i := 0; i < tries && leaked == 0; i++ {
 				s, _ := pair.NewSocket()
 				l, err := s.NewListener(tr.addr(2400+i%50), nil)
@@ -611,7 +626,38 @@ func TestCloseReal(t *testing.T) {
 						}
 					}
 				}
+				if tn == "ws" && leaked == 0 {
+					// a WebSocket client whose Dial returned has seen the server's 101: the listener's handler had the
+					// connection in its hands, so the socket's Close (or the handler) has to close it - looked at
+					// after the last try, all of them together
+					wsProbes = append(wsProbes, probes...)
+					wsConns = append(wsConns, conns...)
+					continue
+				}
 				for _, c := range conns {
+					_ = c.Close()
+				}
+			}
+			if len(wsProbes) > 0 {
+				var pw sync.WaitGroup
+				var pmu sync.Mutex
+				for _, p := range wsProbes {
+					pw.Add(1)
+					go func() {
+						defer pw.Done()
+						if !p(1500 * time.Millisecond) {
+							pmu.Lock()
+							survivors++
+							pmu.Unlock()
+						}
+					}()
+				}
+				pw.Wait()
+				if survivors > 0 && leaked == 0 {
+					leaked = survivors
+					leakDetail = fmt.Sprintf("%d upgraded WebSocket connections still open after their socket was closed", survivors)
+				}
+				for _, c := range wsConns {
 					_ = c.Close()
 				}
 			}
@@ -620,6 +666,147 @@ func TestCloseReal(t *testing.T) {
 			r.Emit("rcensus", "n", len(g), "g", fmt.Sprint(g))
 		}()
 		out.Add("closereal-race-"+tn, rec.Ev{"tran": tn}, tn+" close racing with connections", sim.Result{Lines: r.Lines(), Status: status, Detail: detail})
+	}
+	// The interleaving of WsListener.tla's counterexample, forced: the listener's HTTP handler has found the listener
+	// running and is inside the upgrade (the hijack is held back) when the socket is closed; the upgrade then
+	// completes.  The connection belongs to nobody: it is closed, not left open.
+	{
+		r := rec.New()
+		status, detail := "ok", ""
+		func() {
+			defer func() {
+				if x := recover(); x != nil {
+					status, detail = "panic", fmt.Sprint(x)
+				}
+			}()
+			srv, _ := rep.NewSocket()
+			l, err := srv.NewListener("ws://127.0.0.1:0/sock", nil)
+			if err != nil {
+				panic(err)
+			}
+			muxi, err := l.GetOption(ws.OptionWebSocketMux)
+			if err != nil {
+				panic(err)
+			}
+			mux := muxi.(*http.ServeMux)
+			probe, _ := http.NewRequest("GET", "http://127.0.0.1/sock", nil)
+			lh, _ := mux.Handler(probe)
+			entered, release := make(chan struct{}), make(chan struct{})
+			mux.HandleFunc("/gated", func(w http.ResponseWriter, q *http.Request) {
+				lh.ServeHTTP(&gatedWriter{ResponseWriter: w, entered: entered, release: release}, q)
+			})
+			if err = l.Listen(); err != nil {
+				panic(err)
+			}
+			addr := strings.TrimSuffix(l.Address(), "/sock") + "/gated"
+			type dialed struct {
+				c   *websocket.Conn
+				err error
+			}
+			dch := make(chan dialed, 1)
+			go func() {
+				d := websocket.Dialer{HandshakeTimeout: 5 * time.Second, Subprotocols: []string{"rep.sp.nanomsg.org"}}
+				c, _, err := d.Dial(addr, http.Header{})
+				dch <- dialed{c, err}
+			}()
+			select {
+			case <-entered:
+			case <-time.After(5 * time.Second):
+				panic("the upgrade never started")
+			}
+			cerr := make(chan error, 1)
+			go func() { cerr <- srv.Close() }()
+			select {
+			case e := <-cerr:
+				r.Emit("rclose", "sock", "wsup", "r", e)
+			case <-time.After(3 * time.Second):
+				r.Emit("rclose", "sock", "wsup", "r", "hung")
+			}
+			close(release)
+			closed := true
+			select {
+			case d := <-dch:
+				if d.err == nil {
+					_ = d.c.SetReadDeadline(time.Now().Add(2 * time.Second))
+					_, _, err := d.c.ReadMessage()
+					ne, isNet := err.(net.Error)
+					closed = !(isNet && ne.Timeout())
+					_ = d.c.Close()
+				}
+			case <-time.After(6 * time.Second):
+				closed = false
+			}
+			r.Emit("rhsdrop", "tran", "ws-upgrade", "closed", closed)
+			g := waitNoGoroutines(3 * time.Second)
+			r.Emit("rcensus", "n", len(g), "g", fmt.Sprint(g))
+		}()
+		out.Add("closereal-upgrade-ws", rec.Ev{"tran": "ws"}, "close during a websocket upgrade", sim.Result{Lines: r.Lines(), Status: status, Detail: detail})
+	}
+	// Close racing with Dial: whichever of the two wins, once Close has returned the socket makes no connection
+	// attempt any more (a dialer that slipped in after Close would redial for ever)
+	{
+		r := rec.New()
+		status, detail := "ok", ""
+		func() {
+			defer func() {
+				if x := recover(); x != nil {
+					status, detail = "panic", fmt.Sprint(x)
+				}
+			}()
+			nl, err := net.Listen("tcp", "127.0.0.1:0")
+			if err != nil {
+				panic(err)
+			}
+			defer nl.Close()
+			var mu sync.Mutex
+			conns := 0
+			go func() {
+				for {
+					c, err := nl.Accept()
+					if err != nil {
+						return
+					}
+					mu.Lock()
+					conns++
+					mu.Unlock()
+					_ = c.Close()
+				}
+			}()
+			addr := "tcp://localhost:" + fmt.Sprint(nl.Addr().(*net.TCPAddr).Port)
+			tries := count(400, 4000)
+			var wg sync.WaitGroup
+			for i := 0; i < tries; i++ {
+				s, _ := req.NewSocket()
+				_ = s.SetOption(mangos.OptionDialAsynch, true)
+				_ = s.SetOption(mangos.OptionReconnectTime, 20*time.Millisecond)
+				_ = s.SetOption(mangos.OptionMaxReconnectTime, 20*time.Millisecond)
+				wg.Add(2)
+				go func() { defer wg.Done(); _ = s.Dial(addr) }()
+				go func() {
+					defer wg.Done()
+					time.Sleep(time.Duration((i*29)%150) * time.Microsecond)
+					_ = s.Close()
+				}()
+				if i%16 == 15 {
+					wg.Wait()
+				}
+			}
+			wg.Wait()
+			time.Sleep(300 * time.Millisecond) // attempts that were under way when their socket closed are over
+			mu.Lock()
+			before := conns
+			mu.Unlock()
+			time.Sleep(500 * time.Millisecond)
+			mu.Lock()
+			late := conns - before
+			mu.Unlock()
+			detail := ""
+			if late > 0 {
+				detail = fmt.Sprintf("%d connection attempts in half a second, long after every socket was closed", late)
+			}
+			r.Emit("rrace", "tran", "tcp-dial", "tries", tries, "established", before, "survivors", 0, "leaked", late, "g", detail)
+		}()
+		out.Add("closereal-race-dial", rec.Ev{"tran": "tcp"}, "close racing with dial", sim.Result{Lines: r.Lines(), Status: status, Detail: detail})
 	}
 	// Close racing with connections that complete: a socket with many listeners (closing them takes a while) is
 	// closed while real peers connect to the last one.  Whatever the socket reported Attached it must report
